@@ -165,7 +165,9 @@ TIE_THEOREM = {"Secs": "secs_tie", "NoteDur": "noteDur_tie", "BpmDecode": "bpmDe
                "ComposeSync": ["C08_bpm_code", "C08_ts_lower_code"],
                "ComposeRate": ["C16_nonpositive_code", "C16_value_code"],
                # loops and glue, dumped as terms of the imperative embedding (Model/Imp.lean, Gen/Imp.lean)
-               "LoopEvents": ["dataToEvents_tie"], "LoopSp": ["spData_tie"], "LoopGroups": ["buildNoteEvents_tie"]}
+               "LoopEvents": ["dataToEvents_tie"], "LoopSp": ["spData_tie"], "LoopGroups": ["buildNoteEvents_tie"],
+               # … and what they say about the hand model's functions (the subjects of the property theorems)
+               "ComposeLoopEvents": ["dataToEvents_code"], "ComposeLoopSp": ["spData_code"], "ComposeLoopGroups": ["buildNoteEvents_code"]}
 
 
 def leaf_ties(prop, st, tier="quick") -> dict:
@@ -174,7 +176,7 @@ def leaf_ties(prop, st, tier="quick") -> dict:
     the correspondence check remains the tie — but it makes this run explore four times deeper."""
     res = {}
     for X in getattr(prop, "LEAVES", {}):
-        sec = "Imp" if X.startswith("Loop") else "Leaf"
+        sec = "Imp" if "Loop" in X else "Leaf"
         if not st.get(sec, {}).get("ok"):
             res[X] = {"proved": False, "why": f"translation of Gen/{sec}.lean failed: " + str(st.get(sec, {}).get("error"))[:200]}
             continue
